@@ -600,3 +600,224 @@ func noBaseBypass(c *core.Ctx, R string) {
 	c.Need(R, "calls through an embedded transport field", n, 6)
 	c.Need(R, "super calls inside their override", supers, 4)
 }
+
+// recvName returns the receiver identifier name of a method unit.
+func recvName(u *core.Unit) string {
+	if u.Decl == nil || u.Decl.Recv == nil || len(u.Decl.Recv.List) != 1 || len(u.Decl.Recv.List[0].Names) != 1 {
+		return ""
+	}
+	return u.Decl.Recv.List[0].Names[0].Name
+}
+
+// accessorAgreement — setters store their parameter in one field and the
+// getter of the same name reads that field. The state machine rules reason
+// about SetWritable / SetReadyState / SetMaxHttpBufferSize … call sites; they
+// mean nothing if the accessor bodies do not do what their names say.
+func accessorAgreement(c *core.Ctx, R string) {
+	c.Rule(R, "accessor agreement (transports.transport, engine.socket, types.HttpContext): every one-parameter SetX method stores exactly its parameter into one field (f = p, f.Store(p) or f.Store(&p)), unconditionally, and the getter X / GetX / IsX of the same type reads that same field (f, f.Load(), *f.Load()) and no other field; Discard stores true into the field Discarded reads; Prototype/Proto likewise")
+	type tspec struct{ pkg, typ string }
+	n := 0
+	for _, ts := range []tspec{{"transports", "transport"}, {"engine", "socket"}, {"types", "HttpContext"}, {"engine", "baseServer"}, {"engine", "server"}} {
+		ms := map[string]*core.Unit{}
+		for _, m := range methodsOf(c, ts.pkg, ts.typ) {
+			ms[m.Decl.Name.Name] = m
+		}
+		fieldsReadBy := func(m *core.Unit) map[string]bool {
+			out := map[string]bool{}
+			info := m.Info()
+			ast.Inspect(m.Body, func(x ast.Node) bool {
+				if se, ok := x.(*ast.SelectorExpr); ok {
+					if f := fieldOf(info, se); f != "" && strings.HasPrefix(f, ts.typ+".") {
+						out[f] = true
+					}
+				}
+				return true
+			})
+			return out
+		}
+		for name, m := range ms {
+			var getterNames []string
+			var want ast.Expr // nil = the parameter
+			switch {
+			case strings.HasPrefix(name, "Set") && len(name) > 3 && m.Decl.Type.Params != nil && m.Decl.Type.Params.NumFields() == 1:
+				base := name[3:]
+				getterNames = []string{base, "Get" + base, "Is" + base}
+			case name == "Discard":
+				getterNames = []string{"Discarded"}
+			case name == "Prototype":
+				getterNames = []string{"Proto"}
+			default:
+				continue
+			}
+			_ = want
+			info := m.Info()
+			g := m.Graph()
+			pn := paramName(m, 0)
+			// the store
+			field := ""
+			stores := 0
+			uncond := true
+			for _, a := range assignsIn(m, func(l ast.Expr) bool { return strings.HasPrefix(fieldOf(info, l), ts.typ+".") }) {
+				if name == "Discard" || isLocal(info, a.Rhs, pn) {
+					field = fieldOf(info, a.Lhs)
+					stores++
+					for _, r := range returnsIn(m) {
+						if !g.Dominates(a.Loc, r.Loc) {
+							uncond = false
+						}
+					}
+				}
+			}
+			for _, cl := range m.Calls() {
+				if cl.Name != "Store" || cl.Recv == nil || !strings.HasPrefix(fieldOf(info, cl.Recv), ts.typ+".") || len(cl.Expr.Args) != 1 {
+					continue
+				}
+				a := ast.Unparen(cl.Expr.Args[0])
+				if ue, ok := a.(*ast.UnaryExpr); ok && ue.Op == token.AND {
+					a = ue.X
+				}
+				okArg := isLocal(info, a, pn)
+				if name == "Discard" {
+					v, isC := core.ConstBool(info, a)
+					okArg = isC && v
+				}
+				if okArg {
+					field = fieldOf(info, cl.Recv)
+					stores++
+					for _, r := range returnsIn(m) {
+						if !g.Dominates(cl.Loc, r.Loc) {
+							uncond = false
+						}
+					}
+				}
+			}
+			var getter *core.Unit
+			for _, gn := range getterNames {
+				if ms[gn] != nil {
+					getter = ms[gn]
+				}
+			}
+			if getter == nil && stores == 0 {
+				continue // not an accessor pair of this type (e.g. SetHttpServer on server without a stored param is still caught below when a getter exists)
+			}
+			n++
+			okSet := stores == 1 && uncond
+			c.Check(R, keyf("%s.(*%s).%s/stores-its-parameter", ts.pkg, ts.typ, name), m.Pos(), okSet, keyf("%d store(s) of the parameter into a field of %s, unconditional=%v", stores, ts.typ, uncond))
+			if getter != nil && okSet {
+				rd := fieldsReadBy(getter)
+				okGet := rd[field] && len(rd) == 1
+				c.Check(R, keyf("%s.(*%s).%s/reads-%s", ts.pkg, ts.typ, getter.Decl.Name.Name, field), getter.Pos(), okGet, keyf("getter reads %v, setter writes %s", keys(rd), field))
+			}
+		}
+	}
+	c.Need(R, "setter/getter pairs", n, 12)
+}
+
+// constructorChain — the transports and servers emulate inheritance: MakeX
+// registers the outermost value as prototype, NewX = MakeX + Construct, and
+// each Construct first runs the embedded base's Construct.
+func constructorChain(c *core.Ctx, R string) {
+	c.Rule(R, "constructor chain: every MakeX of transports / engine builds the value, calls x.Prototype(x) with that same value (so that Proto() dispatches DoClose / OnData / OnRequest / DoWrite to the outermost override) and returns it; NewX calls MakeX, then Construct with its own parameters, and returns that value; a Construct of a type that embeds a base with Construct calls the base's Construct first (super call) with the same argument")
+	n := 0
+	for _, u := range c.P.Units {
+		if u.Decl == nil || u.Decl.Recv != nil || u.Pkg == nil || u.Pkg.Types == nil {
+			continue
+		}
+		pk := u.Pkg.Types.Name()
+		if pk != "transports" && pk != "engine" {
+			continue
+		}
+		name := u.Decl.Name.Name
+		info := u.Info()
+		switch {
+		case strings.HasPrefix(name, "Make") && len(name) > 4:
+			ps := u.CallsTo(".Prototype")
+			if len(ps) == 0 {
+				continue // not a prototype-style type (MakeSocket)
+			}
+			n++
+			ok := len(ps) == 1 && ps[0].Recv != nil && len(ps[0].Expr.Args) == 1 && sameObj(info, ps[0].Recv, ps[0].Expr.Args[0])
+			if ok {
+				for _, r := range returnsIn(u) {
+					ok = ok && len(r.Stmt.Results) == 1 && sameObj(info, r.Stmt.Results[0], ps[0].Recv) && u.Graph().Dominates(ps[0].Loc, r.Loc)
+				}
+			}
+			c.Check(R, keyf("%s.%s/Prototype(self)-then-return", pk, name), u.Pos(), ok, "x.Prototype(x) on the value that is returned")
+		case strings.HasPrefix(name, "New") && len(name) > 3:
+			mk := u.CallsTo(pk + ".Make" + name[3:])
+			if len(mk) != 1 {
+				continue
+			}
+			n++
+			cs := u.CallsTo(".Construct")
+			ok := len(cs) == 1 && cs[0].Recv != nil
+			if ok {
+				d, isD := u.SingleDef(cs[0].Recv)
+				ok = isD && ast.Unparen(d) == ast.Expr(mk[0].Expr)
+				// forwards all its parameters in order
+				np := 0
+				if u.Type.Params != nil {
+					for _, f := range u.Type.Params.List {
+						np += len(f.Names)
+					}
+				}
+				ok = ok && len(cs[0].Expr.Args) == np
+				for i := 0; ok && i < np; i++ {
+					ok = argIsParam(u, cs[0], i, i)
+				}
+				for _, r := range returnsIn(u) {
+					ok = ok && len(r.Stmt.Results) == 1 && sameObj(info, r.Stmt.Results[0], cs[0].Recv) && u.Graph().Dominates(cs[0].Loc, r.Loc)
+				}
+			}
+			c.Check(R, keyf("%s.%s/Make-then-Construct(params)", pk, name), u.Pos(), ok, "the value made is constructed with the caller's arguments and returned")
+		}
+	}
+	// super calls
+	for _, u := range c.P.Units {
+		if u.Decl == nil || u.Decl.Recv == nil || u.Decl.Name.Name != "Construct" || u.Pkg == nil || u.Pkg.Types == nil || u.Pkg.Types.Name() != "transports" {
+			continue
+		}
+		info := u.Info()
+		rt := info.TypeOf(u.Decl.Recv.List[0].Type)
+		if pt, ok := rt.(*types.Pointer); ok {
+			rt = pt.Elem()
+		}
+		st, ok := rt.Underlying().(*types.Struct)
+		if !ok {
+			continue
+		}
+		hasBase := false
+		for i := 0; i < st.NumFields(); i++ {
+			if f := st.Field(i); f.Embedded() {
+				ms := types.NewMethodSet(f.Type())
+				for j := 0; j < ms.Len(); j++ {
+					if ms.At(j).Obj().Name() == "Construct" {
+						hasBase = true
+					}
+				}
+			}
+		}
+		if !hasBase {
+			continue
+		}
+		n++
+		ok = false
+		for _, cl := range u.CallsTo(".Construct") {
+			if fs, isS := ast.Unparen(cl.Recv).(*ast.SelectorExpr); isS {
+				if sel := info.Selections[fs]; sel != nil && sel.Kind() == types.FieldVal {
+					if fv, _ := sel.Obj().(*types.Var); fv != nil && fv.Embedded() && len(cl.Expr.Args) == 1 && argIsParam(u, cl, 0, 0) {
+						first := true
+						for _, other := range u.Calls() {
+							if other != cl && other.Pos() < cl.Pos() {
+								first = false
+							}
+						}
+						ok = first
+					}
+				}
+			}
+		}
+		c.Check(R, u.Key+"/super-Construct-first", u.Pos(), ok, "the embedded base is constructed first, with the same context")
+	}
+	c.Need(R, "constructor-chain obligations", n, 12)
+}
